@@ -1,8 +1,9 @@
 """C15 — a TLS/DTLS peer is authorised only by a certificate matching its block."""
 ID = "C15"
-LEAN_TARGETS = ["Rsp.Props.C15"]
+LEAN_TARGETS = ["Rsp.Props.C15", "Rsp.Props.C12Merge"]
 THEOREMS = ["Rsp.Props.C15.verifyConf_accepts_only_matching", "Rsp.Props.C15.naiMatch_spec", "Rsp.Props.C15.naiRealmCheck_spec", "Rsp.Props.C15.termMatch_spec",
-            "Rsp.Props.C15.nameOk_spec", "Rsp.Props.C15.certNameCheck_spec", "Rsp.Props.C15.matchSan_pos"]
+            "Rsp.Props.C15.nameOk_spec", "Rsp.Props.C15.certNameCheck_spec", "Rsp.Props.C15.matchSan_pos",
+            "Rsp.Props.C12.cnCheck_on_iff"]
 RULE = ("certificates built in memory with 0..5 subjectAltName entries of kinds DNS, IP, URI, registeredID, otherName (NAIRealm and other OIDs; string and non-string value types) and "
         "0..2 CN values, all drawn from exact/prefix/suffix/superstring/infix/case/wildcard/embedded-NUL variants of the expected names; blocks with name check on/off, CN check on/off, "
         "ServerName / connected host / configured hosts (single hosts and prefixes), 0..3 MatchCertificateAttribute terms of every form, NAIRealm present/absent. The REAL verifyconfcert "
